@@ -15,6 +15,7 @@ only through query results.
 -/
 import Golib.Model.C05Trie
 import Golib.Model.C05Ptr
+import Golib.Model.C05Arr
 
 namespace Golib.C05
 open Golib.Proto
@@ -48,28 +49,60 @@ def dumpLoop (t : Trie) : Nat → List Label → List String → Option (List St
 def dumpLine (t : Trie) : Option String :=
   (dumpLoop t (nodeBound t.pats + 1) [[]] []).map fun es => "|".intercalate es
 
-/-- Pre-order walk of the POINTER model (children in array order): `(id, path)` of every node. -/
-def pPaths (pt : PTrie) : Nat → List (Nat × Label) → List (Nat × Label) → Option (List (Nat × Label))
-  | _, [], acc => some acc.reverse
+/-- Pre-order walk of the pointer store (children in array order): `(id, last rune, path)` of
+every node; `withPaths = false` leaves the paths empty (compact dump of big tries). -/
+def aPaths (a : ATrie) (withPaths : Bool) :
+    Nat → List (Nat × Int × Label) → Array (Nat × Int × Label) → Option (Array (Nat × Int × Label))
+  | _, [], acc => some acc
   | 0, _ :: _, _ => none
-  | fuel + 1, (id, path) :: stack, acc =>
-    match pt.nodes[id]? with
+  | fuel + 1, (id, r, path) :: stack, acc =>
+    match a.nodes[id]? with
     | none => none
-    | some nd => pPaths pt fuel (nd.children.map (fun rc => (rc.2, path ++ [rc.1])) ++ stack) ((id, path) :: acc)
+    | some nd =>
+      aPaths a withPaths fuel
+        (nd.children.map (fun rc => (rc.2, rc.1, if withPaths then path ++ [rc.1] else [])) ++ stack)
+        (acc.push (id, r, path))
 
-/-- The `dump` line computed from the pointer-level model (`Golib/Model/C05Ptr.lean`): the
-node store is walked as the harness walks the real heap; a fail pointer is printed as the path
-of the node it points to. -/
-def pDumpLine (pt : PTrie) : Option String :=
-  (pPaths pt (pt.nodes.length + 1) [(0, [])] []).bind fun ps =>
-    (ps.mapM fun (ip : Nat × Label) =>
-      (pt.nodes[ip.1]?).map fun nd =>
-        showPath ip.2 ++ ";" ++ toString nd.size ++ ";" ++ (if nd.isEnd then "1" else "0") ++ ";" ++
+/-- `index[id]` = position of node `id` in the pre-order. -/
+def preIndex (n : Nat) (order : Array (Nat × Int × Label)) : Array Nat :=
+  (List.range order.size).foldl (fun (m : Array Nat) k =>
+    match order[k]? with
+    | some e => m.setIfInBounds e.1 k
+    | none => m) (Array.replicate n 0)
+
+/-- The `dump` line computed from the pointer-level model (array-backed store
+`Golib/Model/C05Arr.lean`, proved to compute what `Golib/Model/C05Ptr.lean` computes): the node
+store is walked as the harness walks the real heap; a fail pointer is printed as the path of
+the node it points to. -/
+def pDumpLine (a : ATrie) : Option String :=
+  (aPaths a true (a.nodes.size + 1) [(0, 0, [])] #[]).bind fun order =>
+    let idx := preIndex a.nodes.size order
+    (order.toList.mapM fun (e : Nat × Int × Label) =>
+      (a.nodes[e.1]?).map fun nd =>
+        showPath e.2.2 ++ ";" ++ toString nd.size ++ ";" ++ (if nd.isEnd then "1" else "0") ++ ";" ++
           (match nd.fail with
            | none => "nil"
-           | some f => match ps.lookup f with
-             | some q => showPath q
+           | some f => match idx[f]? with
+             | some k => (match order[k]? with | some q => showPath q.2.2 | none => "?")
              | none => "?")).map fun es => "|".intercalate es
+
+/-- Compact dump (`dumpc`) for big tries, linear in the number of nodes: per node in pre-order
+`<last rune>;<size>;<isEnd>;<pre-order index of the fail target>` (root rune `.`, nil `nil`). -/
+def pDumpCompact (a : ATrie) : Option String :=
+  (aPaths a false (a.nodes.size + 1) [(0, 0, [])] #[]).bind fun order =>
+    let idx := preIndex a.nodes.size order
+    (order.toList.mapM fun (e : Nat × Int × Label) =>
+      (a.nodes[e.1]?).map fun nd =>
+        (if e.1 == 0 then "." else toString e.2.1) ++ ";" ++ toString nd.size ++ ";" ++
+          (if nd.isEnd then "1" else "0") ++ ";" ++
+          (match nd.fail with
+           | none => "nil"
+           | some f => match idx[f]? with
+             | some k => toString k
+             | none => "?")).map fun es => "|".intercalate es
+
+/-- Headers with more pattern bytes than this run in big mode. -/
+def bigLimit : Nat := 20000
 
 /-- Driver state of a case: the trie, whether patterns were inserted since the last
 `BuildFailureLinks` (`dirty`: queries are then outside the property; a panic of such a query
@@ -79,10 +112,13 @@ structure DState where
   t : Trie
   dirty : Bool
   last : List Nat
-  /-- the pointer-level model of the same trie (`c05_pointer_refines_label`: it represents `t`
-  after every `insert` / `build`); `dump` is printed from it -/
-  pt : PTrie
-deriving Repr
+  /-- the pointer-level model of the same trie, in its array-backed form (`c05_array_refines`:
+  it computes what the list-backed `PTrie` computes; `c05_pointer_refines_label`: that one
+  represents `t` after every `insert` / `build`); `dump` is printed from it -/
+  pt : ATrie
+  /-- big mode (more than `bigLimit` pattern bytes in the header): only the pointer model is
+  run (`t` stays empty); `match` / `findall` / `dumpc` are answered from it -/
+  big : Bool := false
 
 /-- A byte-string argument: hex, `-` = empty, `^` = the last result. -/
 def argBytes (s : DState) (a : String) : Option (List Nat) :=
@@ -95,6 +131,7 @@ def runOp (s : DState) (ts : List String) : Option (Option (String × Option (Li
   let lastOf (xs : List (List Nat)) : Option (List Nat) := xs.getLast?
   match ts with
   | ["dump"] => some ((pDumpLine s.pt).map fun o => (o, none))
+  | ["dumpc"] => some ((pDumpCompact s.pt).map fun o => (o, none))
   | ["sibling", pat, text] =>
     -- an independent second trie (a copy of the zero value), built from one pattern
     match argBytes s pat, argBytes s text with
@@ -105,6 +142,12 @@ def runOp (s : DState) (ts : List String) : Option (Option (String × Option (Li
     match argBytes s arg with
     | none => none
     | some bs =>
+      if s.big then
+        match op with
+        | "match" => some ((s.pt.match bs).map fun b => (showBool b, none))
+        | "findall" => some ((s.pt.findAll bs).map fun ws => (showStrs ws, lastOf ws))
+        | _ => none
+      else
       match op with
       | "match" => some ((s.t.match bs).map fun b => (showBool b, none))
       | "findall" => some ((s.t.findAll bs).map fun ws => (showStrs ws, lastOf ws))
@@ -120,13 +163,14 @@ current trie (its failure table is left as it is: new nodes have `nil`), `build`
 def mutOp (s : DState) (ts : List String) : Option (Option DState) :=
   match ts with
   | ["build"] =>
-    some (match s.t.rebuild, s.pt.build with
+    some (if s.big then s.pt.build.map fun pt' => { s with pt := pt', dirty := false }
+      else match s.t.rebuild, s.pt.build with
       | some t', some pt' => some { s with t := t', pt := pt', dirty := false }
       | _, _ => none)
   | ["insert", arg] =>
     match argBytes s arg with
     | some bs => some ((s.pt.insert (decodeAll bs)).map fun pt' =>
-        { s with t := s.t.insert (decodeAll bs), pt := pt', dirty := true })
+        { s with t := if s.big then s.t else s.t.insert (decodeAll bs), pt := pt', dirty := true })
     | none => none
   | _ => none
 
@@ -161,13 +205,16 @@ def initState (hdr : List String) : Option (Option DState) :=
   match hdr with
   | "trie" :: rest =>
     (parsePatterns rest).map fun pats =>
-      match Trie.ofPatterns pats, PTrie.ofPatterns pats with
-      | some t, some pt => some ⟨t, false, [], pt⟩
+      if (pats.map List.length).sum > bigLimit then
+        (ATrie.ofPatterns pats).map fun pt => ⟨Trie.empty, false, [], pt, true⟩
+      else
+      match Trie.ofPatterns pats, ATrie.ofPatterns pats with
+      | some t, some pt => some ⟨t, false, [], pt, false⟩
       | _, _ => none
   | "raw" :: rest =>
     (parsePatterns rest).map fun pats =>
-      (PTrie.empty.insertAll pats).map fun pt =>
-        ⟨pats.foldl (fun t p => t.insert (decodeAll p)) Trie.empty, true, [], pt⟩
+      (ATrie.empty.insertAll pats).map fun pt =>
+        ⟨pats.foldl (fun t p => t.insert (decodeAll p)) Trie.empty, true, [], pt, false⟩
   | _ => none
 
 def runCaseWith (query : DState → List String → Option (Option (String × Option (List Nat))))
